@@ -150,12 +150,12 @@ func c12Once(c *mon.Ctx) {
 func c12Invariants(c *mon.Ctx, g lint.Registry, names []string, inReg map[string]bool, when string) {
 	// (2) names unique across kinds, sorted
 	if !sort.StringsAreSorted(names) {
-		c.V("names-not-sorted", "Names() is not sorted", "", nil, nil)
+		c.V("names-not-sorted", when+": "+"Names() is not sorted", "", nil, nil)
 	}
 	seen := map[string]bool{}
 	for _, n := range names {
 		if seen[n] {
-			c.V("duplicate-name|"+n, "Names() lists "+n+" twice", n, nil, nil)
+			c.V("duplicate-name|"+n, when+": "+"Names() lists "+n+" twice", n, nil, nil)
 		}
 		seen[n] = true
 	}
@@ -180,12 +180,12 @@ func c12Invariants(c *mon.Ctx, g lint.Registry, names []string, inReg map[string
 		total += len(m)
 		for n := range m {
 			if !inReg[n] {
-				c.V("listing-not-in-names|"+n, fmt.Sprintf("%s Lints() contains %s which Names() does not list", k, n), n, nil, nil)
+				c.V("listing-not-in-names|"+n, when+": "+fmt.Sprintf("%s Lints() contains %s which Names() does not list", k, n), n, nil, nil)
 			}
 		}
 	}
 	if total != len(names) {
-		c.V("listing-size", fmt.Sprintf("the three Lints() listings hold %d lints, Names() %d", total, len(names)), "", nil, nil)
+		c.V("listing-size", when+": "+fmt.Sprintf("the three Lints() listings hold %d lints, Names() %d", total, len(names)), "", nil, nil)
 	}
 	srcUnion := map[string]bool{}
 	for _, n := range names {
@@ -201,27 +201,27 @@ func c12Invariants(c *mon.Ctx, g lint.Registry, names []string, inReg map[string
 		}
 		c.R.Count("evaluations", 1)
 		if len(found) != 1 {
-			c.V("kinds-answering|"+n, fmt.Sprintf("%d lint kinds answer ByName(%s), want exactly 1", len(found), n), n, nil, nil)
+			c.V("kinds-answering|"+n, when+": "+fmt.Sprintf("%d lint kinds answer ByName(%s), want exactly 1", len(found), n), n, nil, nil)
 			continue
 		}
 		f := found[0]
 		c.R.Distinct("lints_checked", n)
 		if !byKindList[f.kind][n] {
-			c.V("byname-vs-listing|"+n, n+" is found by name but missing from its kind's Lints()", n, nil, nil)
+			c.V("byname-vs-listing|"+n, when+": "+n+" is found by name but missing from its kind's Lints()", n, nil, nil)
 		}
 		m := f.meta
 		if m.Name != n {
-			c.V("name-mismatch|"+n, fmt.Sprintf("ByName(%s) returns a lint named %q", n, m.Name), n, nil, nil)
+			c.V("name-mismatch|"+n, when+": "+fmt.Sprintf("ByName(%s) returns a lint named %q", n, m.Name), n, nil, nil)
 		}
 		pre := strings.HasPrefix(n, "e_") || strings.HasPrefix(n, "w_") || strings.HasPrefix(n, "n_")
 		if !pre || len(n) <= 2 || n != strings.ToLower(n) || strings.ContainsAny(n, " \t\r\n") {
-			c.V("bad-name|"+n, fmt.Sprintf("lint name %q is not a lower-case e_/w_/n_-prefixed name without blanks", n), n, nil, nil)
+			c.V("bad-name|"+n, when+": "+fmt.Sprintf("lint name %q is not a lower-case e_/w_/n_-prefixed name without blanks", n), n, nil, nil)
 		}
 		if strings.TrimSpace(m.Description) == "" {
-			c.V("no-description|"+n, n+" has an empty description", n, nil, nil)
+			c.V("no-description|"+n, when+": "+n+" has an empty description", n, nil, nil)
 		}
 		if !knownSources[m.Source] {
-			c.V("bad-source|"+n, fmt.Sprintf("%s has source %q which is not a declared lint source", n, m.Source), n, nil, nil)
+			c.V("bad-source|"+n, when+": "+fmt.Sprintf("%s has source %q which is not a declared lint source", n, m.Source), n, nil, nil)
 		}
 		// ... and known to the library's own parsers, not only to this harness's list of constants
 		var viaString lint.LintSource
@@ -229,13 +229,13 @@ func c12Invariants(c *mon.Ctx, g lint.Registry, names []string, inReg map[string
 		var viaJSON lint.LintSource
 		errJSON := viaJSON.UnmarshalJSON([]byte(strconv.Quote(string(m.Source))))
 		if viaString != m.Source || errJSON != nil || viaJSON != m.Source {
-			c.V("source-unknown-to-library|"+string(m.Source), fmt.Sprintf("%s has source %q, which the library's own LintSource parsers do not know (FromString -> %q, UnmarshalJSON -> %q, %v)", n, m.Source, viaString, viaJSON, errJSON), n, nil, nil)
+			c.V("source-unknown-to-library|"+string(m.Source), when+": "+fmt.Sprintf("%s has source %q, which the library's own LintSource parsers do not know (FromString -> %q, UnmarshalJSON -> %q, %v)", n, m.Source, viaString, viaJSON, errJSON), n, nil, nil)
 		}
 		if !f.impl {
-			c.V("nil-implementation|"+n, n+" has a nil constructor or instance", n, nil, nil)
+			c.V("nil-implementation|"+n, when+": "+n+" has a nil constructor or instance", n, nil, nil)
 		}
 		if !m.EffectiveDate.IsZero() && !m.IneffectiveDate.IsZero() && !m.EffectiveDate.Before(m.IneffectiveDate) {
-			c.V("dates|"+n, fmt.Sprintf("%s: effective date %s does not precede ineffective date %s", n, fmtDate(m.EffectiveDate), fmtDate(m.IneffectiveDate)), n, nil, nil)
+			c.V("dates|"+n, when+": "+fmt.Sprintf("%s: effective date %s does not precede ineffective date %s", n, fmtDate(m.EffectiveDate), fmtDate(m.IneffectiveDate)), n, nil, nil)
 		}
 		srcUnion[string(m.Source)] = true
 		// lookup by source must contain it
@@ -255,7 +255,7 @@ func c12Invariants(c *mon.Ctx, g lint.Registry, names []string, inReg map[string
 			}
 		}
 		if !ok {
-			c.V("bysource|"+n, fmt.Sprintf("%s is not returned by BySource(%s) of its kind", n, m.Source), n, nil, nil)
+			c.V("bysource|"+n, when+": "+fmt.Sprintf("%s is not returned by BySource(%s) of its kind", n, m.Source), n, nil, nil)
 		}
 	}
 	// union of BySource over Sources() == Lints(), per kind
@@ -269,11 +269,11 @@ func c12Invariants(c *mon.Ctx, g lint.Registry, names []string, inReg map[string
 	}
 	for k, m := range byKindList {
 		if nBySrc[k] != len(m) {
-			c.V("bysource-union|"+k.String(), fmt.Sprintf("sum of BySource over Sources() = %d %s lints, Lints() = %d", nBySrc[k], k, len(m)), "", nil, nil)
+			c.V("bysource-union|"+k.String(), when+": "+fmt.Sprintf("sum of BySource over Sources() = %d %s lints, Lints() = %d", nBySrc[k], k, len(m)), "", nil, nil)
 		}
 	}
 	if !reflect.DeepEqual(gotSrc, srcUnion) {
-		c.V("sources", fmt.Sprintf("Sources() = %v but the lints' sources are %v", keysOf(gotSrc), keysOf(srcUnion)), "", nil, nil)
+		c.V("sources", when+": "+fmt.Sprintf("Sources() = %v but the lints' sources are %v", keysOf(gotSrc), keysOf(srcUnion)), "", nil, nil)
 	}
 	// per-kind lookups must agree with the kind-less one
 	for _, k := range []corpus.Kind{corpus.Cert, corpus.CRL, corpus.OCSP} {
@@ -287,11 +287,10 @@ func c12Invariants(c *mon.Ctx, g lint.Registry, names []string, inReg map[string
 			l = g.OcspResponseLints().Names()
 		}
 		if len(l) != len(byKindList[k]) || !sort.StringsAreSorted(l) {
-			c.V("kind-names|"+k.String(), fmt.Sprintf("%s lookup Names() has %d entries (sorted=%v), Lints() %d", k, len(l), sort.StringsAreSorted(l), len(byKindList[k])), "", nil, nil)
+			c.V("kind-names|"+k.String(), when+": "+fmt.Sprintf("%s lookup Names() has %d entries (sorted=%v), Lints() %d", k, len(l), sort.StringsAreSorted(l), len(byKindList[k])), "", nil, nil)
 		}
 	}
 	c.R.Count("invariant_passes", 1)
-	_ = when
 }
 
 // c12Solo (own process): "after any addition". Lints of every kind are added through the public API (also the
@@ -335,9 +334,35 @@ func c12Solo(c *mon.Ctx) {
 			lint.RegisterCertificateLint(&lint.CertificateLint{LintMetadata: lint.LintMetadata{Name: "e_verif_c12_cert2", Description: "verif addition", Citation: "verif", Source: lint.CABFEVGuidelines}, Lint: func() lint.CertificateLintInterface { return probeCert{} }})
 		},
 	}
+	// registries obtained BEFORE the additions (by an empty selection - the registry itself or a view of it - and by
+	// selections that keep everything): whatever they list later, their own lookups must keep agreeing with each other
+	type view struct {
+		reg   lint.Registry
+		label string
+	}
+	var views []view
+	for label, o := range map[string]lint.FilterOptions{
+		"an empty selection":         {},
+		"a match-all pattern":        {NameFilter: regexpAll},
+		"excluding an unused source": {ExcludeSources: lint.SourceList{lint.LintSource("NoSuchSource")}},
+	} {
+		if r, err := g.Filter(o); err == nil && r != nil {
+			_ = r.Names()
+			views = append(views, view{r, label})
+		}
+	}
 	for k, a := range adds {
 		a()
 		pass(fmt.Sprintf("after addition %d", k+1))
+		for _, v := range views {
+			vn := v.reg.Names()
+			in := map[string]bool{}
+			for _, n := range vn {
+				in[n] = true
+			}
+			c12Invariants(c, v.reg, vn, in, fmt.Sprintf("registry obtained by %s before the additions, after addition %d", v.label, k+1))
+			c.R.Count("earlier_view_passes", 1)
+		}
 		for _, l := range []int{len(g.CertificateLints().Lints()) + len(g.RevocationListLints().Lints()) + len(g.OcspResponseLints().Lints())} {
 			if l != before+k+1 {
 				c.V("addition-not-in-listing", fmt.Sprintf("after %d additions the three Lints() listings hold %d lints, want %d", k+1, l, before+k+1), "", nil, nil)
